@@ -384,6 +384,7 @@ func txmcMain(args []string) int {
 	nnodes := fs.Int("nodes", 3, "nodes")
 	ntxs := fs.Int("txs", 2, "transactions")
 	out := fs.String("out", "", "output ndjson")
+	retry := fs.Bool("retry", false, "phased traces that exercise retry polls with small limits")
 	fs.Parse(args)
 	rng := rand.New(rand.NewSource(*seed))
 	f := os.Stdout
@@ -410,8 +411,19 @@ func txmcMain(args []string) int {
 		}
 		tr := txmcTrace{ID: id}
 		for r := 0; r < *rounds; r++ {
+			// phased mode: announcements by several peers, a timeout, retry polls with small limits,
+			// another timeout, polls and deliveries
+			phase := -1
+			if *retry {
+				phase = r * 5 / *rounds
+			}
+			if (phase == 1 || phase == 3) && r*5%*rounds < 5 {
+				w.m.VerifAgeRequests(w.timeout)
+				tr.Rounds = append(tr.Rounds, txmcRound{Calls: []txmcCall{{Op: "tick", Txs: []string{}}}})
+				continue
+			}
 			// occasionally a tick round (sequential)
-			if rng.Intn(4) == 0 {
+			if phase == -1 && rng.Intn(4) == 0 {
 				w.m.VerifAgeRequests(w.timeout)
 				tr.Rounds = append(tr.Rounds, txmcRound{Calls: []txmcCall{{Op: "tick", Txs: []string{}}}})
 				continue
@@ -426,7 +438,15 @@ func txmcMain(args []string) int {
 				if rng.Intn(4) == 0 {
 					c.T = txNames[rng.Intn(len(txNames))]
 				}
-				switch rng.Intn(5) {
+				pick := rng.Intn(5)
+				switch phase {
+				case 0:
+					pick = 0
+					c.T = txNames[rng.Intn(len(txNames))]
+				case 1, 2, 3:
+					pick = []int{4, 4, 4, 0, 2}[rng.Intn(5)]
+				}
+				switch pick {
 				case 0, 1:
 					c.Op = "announce"
 				case 2, 3:
